@@ -91,8 +91,13 @@ def twin(exe, root, seed, stats):
     nsplit = 2 + rng.below(3)
     limit = rng.choice([6 * 1024, 8 * 1024 + 100, 12 * 1024, 15 * 1024 + 1, 20 * 1024])
     arrs = []
+    # the levels need not be split alike: sometimes only some of them are (the last one a single file)
+    mixed = npar >= 2 and rng.chance(1, 3)
     for name, splits in (('one', 1), ('split', nsplit)):
         a = e2e.Arr(os.path.join(root, name), exe, ndisks=nd, nparity=npar, ncontent=1, hashsize=16, splits=splits)
+        if mixed and splits > 1:
+            a.level_split_counts = [nsplit] * (npar - 1) + [1]
+            a.write_conf()
         arrs.append(a)
     sims = [sim.Sim(a, e2e.Rng(seed + 1), weird_names=False, links=False) for a in arrs]
     lim = ['--test-parity-limit=%d' % limit]
@@ -158,7 +163,7 @@ def twin(exe, root, seed, stats):
         if k <= 1 and step > 0:
             # lose one split (or the whole level) and fix
             lev = rng.below(npar); which = rng.below(nsplit)
-            pf = arrs[1].parity_files(lev)[which]
+            pf = arrs[1].parity_files(lev)[which % len(arrs[1].parity_files(lev))]
             if os.path.exists(pf) and os.path.getsize(pf) > 0:
                 # the same loss on both twins: the whole level (all its splits / the single file)
                 for q in arrs[1].parity_files(lev):
